@@ -1,6 +1,6 @@
 (* Props/C18.v — property C18: the state-machine engine keeps one consistent current state. *)
 From SG Require Import Base.Prelude Spec.StateChart Model.StateMachine Gen.Machines.
-From SG Require Import Proofs.SmProofs Proofs.SmHier Gen.Engine.
+From SG Require Import Proofs.SmProofs Proofs.SmHier Gen.Engine Proofs.EngineProofs.
 From Coq Require Import Lia.
 Open Scope nat_scope.
 
@@ -100,18 +100,22 @@ Proof.
 Qed.
 
 (* The engine as the code has it.  State.enter, State.leave and StateMachine._perform_transition are read statement by statement on every run
-   (harness/gen_engine.py -> Gen/Engine.v) and emitted as the sequences of steps they are, in the order the source has them.  Model/StateMachine.v
-   is written for exactly these sequences:
-     enter_chain   = mark the state active, fire its enter event, go on to the parent when the source is outside the parent or the parent is
-                     not active (the source is never None inside a transition);
-     leave_chain   = fire the leave event, mark the state inactive, go on to the parent when the destination is outside the parent;
-     perform       = source check, leave the current state towards the destination, remember the current state, assign the destination, enter it
-                     coming from the remembered state, fire the transition's called event - all inside the engine's lock (C18_transitions_are_locked).
-   A change of order (the flag after the event, the assignment after the enter, a dropped clause on the way up, "called" before the enter ...) is a
-   change of these lists and breaks this obligation; the engine rig then supplies the machine and the request sequence that behave differently. *)
-Theorem C18_engine_as_translated :
-  state_enter_ops = [OSetActive; OFire "enter"; OParent ["other_is_none"; "other_outside_parent"; "parent_inactive"]]%string /\
-  state_leave_ops = [OFire "leave"; OClearActive; OParent ["other_is_none"; "other_outside_parent"]]%string /\
-  perform_ops = [TCheckSource; TLeaveCurrent; TRememberCurrent; TAssignCurrent; TEnterFromRemembered; TFireCalled].
-Proof. repeat split; reflexivity. Qed.
-Print Assumptions C18_engine_as_translated.
+   (harness/gen_engine.py -> Gen/Engine.v) and emitted as the sequences of steps they are, in the order the source has them (the conditions on the
+   way up to the parent by name).  Proofs/EngineProofs.v interprets these regenerated sequences - one level of enter / leave, the walk up the
+   parents, the steps of a transition with the remembered state - and proves that the hand-written chains of Model/StateMachine.v ARE these
+   interpreters: for every machine, every table of handlers (nested requests included: they go through the same function), every state.
+   A change of order in the source (the flag after the event, the assignment after the enter, a dropped clause on the way up, "called" before
+   the enter ...) changes the lists and these equalities fail; the engine rig then supplies the machine and the requests that behave differently. *)
+Theorem C18_engine_code_is_model :
+  (forall m h os prf fuel st s src, enter_chain m h os prf fuel st s src = chain_ops m h os prf state_enter_ops fuel st s src) /\
+  (forall m h os prf fuel st s dst, leave_chain m h os prf fuel st s dst = chain_ops m h os prf state_leave_ops fuel st s dst) /\
+  (forall m h os f st name,
+     perform m h os (S f) st name =
+     match find_trans m name with
+     | None => (st, true)
+     | Some (srcs, dst) => run_perform_ops m h os (perform m h os f) perform_ops name srcs dst st 0
+     end).
+Proof.
+  split; [intros; apply enter_chain_is_ops|]. split; [intros; apply leave_chain_is_ops|]. intros; apply perform_is_ops.
+Qed.
+Print Assumptions C18_engine_code_is_model.
